@@ -61,6 +61,10 @@ class Check:
     def anchor_missing(self, rule, msg):
         self.bad(rule, "anchor-missing:" + msg[:80], "-", "anchor-missing: " + msg)
 
+    def undecided(self, rule, key, where, msg):
+        """the rule does not understand the code in front of it (an idiom it was not written for): no verdict"""
+        self.bad(rule, "cannot-decide:" + key, where, "cannot decide: " + msg)
+
     def note(self, s):
         self.notes.append(s)
 
@@ -89,7 +93,7 @@ def finish(chk, prog, explanation, trusted_base, assumptions, seed=0, extra=None
     # and judged wrong.  SVGDX_SA_STRICT=1 restores fail-closed behaviour (used when the rules themselves are edited).
     undecided = []
     if not os.environ.get("SVGDX_SA_STRICT"):
-        undecided = [o for o in violated if "anchor-missing" in o["key"] or o["rule"] in ("rule-cannot-analyse", "anchor")]
+        undecided = [o for o in violated if "anchor-missing" in o["key"] or "cannot-decide" in o["key"] or o["rule"] in ("rule-cannot-analyse", "anchor")]
         for o in undecided:
             o["status"] = "undecided"
             print(f"UNDECIDED: property={chk.pid} rule={o['rule']} {o['detail'][:300]}")
